@@ -336,12 +336,104 @@ func directiveGraph(t *rapid.T) string {
 	return b.String()
 }
 
+// genSchemaRequest writes a request over the crash schema from its field table: aliases collide
+// (also across fields of different types), arguments get values of any shape - wrong kinds, nested
+// lists and objects, undeclared members - and selections nest through the object valued fields.
+func genSchemaRequest(t *rapid.T) string {
+	var val func(depth int, label string) string
+	val = func(depth int, label string) string {
+		k := rapid.IntRange(0, 11).Draw(t, label+"k")
+		if depth > 2 && k >= 9 {
+			k = 0
+		}
+		switch k {
+		case 0:
+			return rapid.SampledFrom([]string{"1", "-1", "2147483648", "1.5", "1e400", "0"}).Draw(t, label+"n")
+		case 1:
+			return rapid.SampledFrom([]string{`"s"`, `""`, `"fail"`, `"""b"""`, `"\u00e9"`}).Draw(t, label+"s")
+		case 2:
+			return rapid.SampledFrom([]string{"true", "false", "null"}).Draw(t, label+"b")
+		case 3:
+			return rapid.SampledFrom([]string{"RED", "GREEN", "BLUE", "x"}).Draw(t, label+"e")
+		case 4:
+			return "$" + rapid.SampledFrom([]string{"v", "u", "in"}).Draw(t, label+"v")
+		case 5, 6, 7, 8:
+			return rapid.SampledFrom([]string{"1", `"s"`, "true", "RED", "null"}).Draw(t, label+"c")
+		case 9:
+			n := rapid.IntRange(0, 3).Draw(t, label+"ln")
+			parts := make([]string, n)
+			for i := range parts {
+				parts[i] = val(depth+1, fmt.Sprintf("%s_%d", label, i))
+			}
+			return "[" + strings.Join(parts, " ") + "]"
+		default:
+			n := rapid.IntRange(0, 3).Draw(t, label+"on")
+			parts := make([]string, n)
+			for i := range parts {
+				key := rapid.SampledFrom([]string{"a", "b", "c", "d", "e", "f", "zzz", "in"}).Draw(t, fmt.Sprintf("%s_k%d", label, i))
+				parts[i] = key + ": " + val(depth+1, fmt.Sprintf("%s_o%d", label, i))
+			}
+			return "{" + strings.Join(parts, " ") + "}"
+		}
+	}
+	type fdef struct {
+		name string
+		args []string
+		obj  bool
+	}
+	fields := []fdef{{"str", nil, false}, {"num", nil, false}, {"when", nil, false}, {"strs", nil, false}, {"hidden", nil, false}, {"__typename", nil, false},
+		{"obj", nil, true}, {"objs", nil, true}, {"any", nil, true}, {"anys", nil, true}, {"named", nil, true},
+		{"echo", []string{"s"}, false}, {"pick", []string{"s", "b"}, false}, {"flip", []string{"b"}, false}, {"add", []string{"i", "j"}, false},
+		{"sum", []string{"l"}, false}, {"inp", []string{"in"}, false}, {"col", []string{"c"}, false}, {"fail", []string{"s"}, false}, {"big", []string{"x", "y", "t", "id"}, false}}
+	var sels func(depth int, label string) string
+	sels = func(depth int, label string) string {
+		n := rapid.IntRange(1, 4).Draw(t, label+"n")
+		var b strings.Builder
+		b.WriteString("{")
+		for i := 0; i < n; i++ {
+			l := fmt.Sprintf("%s_%d", label, i)
+			f := rapid.SampledFrom(fields).Draw(t, l+"f")
+			if depth > 2 && f.obj {
+				f = fields[0]
+			}
+			if rapid.IntRange(0, 2).Draw(t, l+"alias") == 0 {
+				b.WriteString(rapid.SampledFrom([]string{"x", "y", "str", "objs"}).Draw(t, l+"a") + ": ")
+			}
+			b.WriteString(f.name)
+			var args []string
+			for _, a := range f.args {
+				if rapid.IntRange(0, 5).Draw(t, l+a+"omit") != 0 {
+					args = append(args, a+": "+val(0, l+a))
+				}
+			}
+			if rapid.IntRange(0, 9).Draw(t, l+"extra") == 0 {
+				args = append(args, "zzz: "+val(0, l+"zzz"))
+			}
+			if len(args) > 0 {
+				b.WriteString("(" + strings.Join(args, " ") + ")")
+			}
+			if f.obj && rapid.IntRange(0, 9).Draw(t, l+"noSel") != 0 {
+				b.WriteString(sels(depth+1, l))
+			} else if !f.obj && rapid.IntRange(0, 14).Draw(t, l+"leafSel") == 0 {
+				b.WriteString("{str}")
+			}
+			b.WriteString(" ")
+		}
+		b.WriteString("}")
+		return b.String()
+	}
+	head := rapid.SampledFrom([]string{"", "", "query Q", "query Q($v: Int = 1, $u: [String] = [\"a\"], $in: In = {})", "query Q($v: String, $in: In!)"}).Draw(t, "head")
+	return head + sels(0, "s")
+}
+
 func genInput(t *rapid.T) *Input {
 	in := &Input{Fault: -1}
-	switch kind := rapid.SampledFrom([]string{"exe-soup", "exe-mutated", "exe-mutated", "exe-adversarial", "exe-adversarial", "exe-valid-badvars", "exe-fragment-graph", "exe-fragment-graph", "sdl-soup", "sdl-mutated", "sdl-mutated", "sdl-adversarial", "sdl-adversarial-mutated", "sdl-multi-load", "sdl-directive-graph",
+	switch kind := rapid.SampledFrom([]string{"exe-soup", "exe-mutated", "exe-mutated", "exe-adversarial", "exe-adversarial", "exe-valid-badvars", "exe-fragment-graph", "exe-fragment-graph", "exe-schema-request", "exe-schema-request", "exe-schema-request", "sdl-soup", "sdl-mutated", "sdl-mutated", "sdl-adversarial", "sdl-adversarial-mutated", "sdl-multi-load", "sdl-directive-graph",
 		"sdl-valid", "value-soup", "value-bytes", "bytes", "deep-nesting", "writer"}).Draw(t, "kind"); kind {
 	case "exe-fragment-graph":
 		in.Target, in.Text, in.Note = "exe", fragmentGraph(t), kind
+	case "exe-schema-request":
+		in.Target, in.Text, in.Note = "exe", genSchemaRequest(t), kind
 	case "exe-soup":
 		in.Target, in.Text, in.Note = "exe", genSoup(t, exeTokens, "x"), kind
 	case "exe-mutated":
